@@ -13,7 +13,8 @@ ID = 'C08'
 LEVEL = 'exploration'
 BUDGET = {'quick': 2000, 'thorough': 8000}
 RULE = ('Hypothesis-generated schedules: 1-5 coroutine scripts (finite or cyclic lists of yield values from '
-        '{None, 0, negative, positive multiples of 1/8}), a start for each (from outside before a frame, or from '
+        '{None, 0, negative, positive multiples of 1/8}, written as int/float, fractions.Fraction or a float '
+        'subclass; dt too may be a Fraction), a start for each (from outside before a frame, or from '
         'inside another coroutine\'s step) and a dt sequence of 3-25 non-negative multiples of 1/8 (zeros '
         'included). Oracle: reference model with one absolute deadline per coroutine in exact rational '
         'arithmetic; per frame the executed (coroutine, step) multiset must equal the model\'s and coroutines '
@@ -29,6 +30,10 @@ ASSUMPTIONS = [
 ]
 FINDINGS = {}
 YIELDS = [None, 0, -1, 0.125, 0.5, 1, 1.5, 2.5, 4, 0.25]
+
+
+class Seconds(float):
+    """a float subclass, as a units library would provide"""
 
 
 def decode_script(p):
@@ -51,8 +56,9 @@ def decode_start(p):
 
 
 def strategy():
-    co = st.tuples(st.integers(0, 2 * 5 * 10 ** 5 - 1), st.integers(0, 299)).map(
-        lambda t: {'script': decode_script(t[0]), 'start': decode_start(t[1])})
+    # num: how the coroutine writes its waits - 0/1 plain int/float, 2 fractions.Fraction, 3 a float subclass
+    co = st.tuples(st.integers(0, 2 * 5 * 10 ** 5 - 1), st.integers(0, 1199)).map(
+        lambda t: {'script': decode_script(t[0]), 'start': decode_start(t[1] % 300), 'num': t[1] // 300})
     return st.fixed_dictionaries({
         'cos': st.lists(co, min_size=1, max_size=5),
         # kill immediately followed by start (between two frames) of a running coroutine: it carries on, a waiting
@@ -62,7 +68,7 @@ def strategy():
                                 chunk=5).map(lambda l: l if len(l) >= 3 else l + [0.5] * (3 - len(l)))})
 
 
-def check_schedule(cos, dts, restarts=()):
+def check_schedule(cos, dts, restarts=(), frac_dt=False):
     """Run the implementation on the schedule and compare with the reference model.
 
     cos: list of {'script': {'cyclic', 'yields'}, 'start': ['outside', f] | ['inside', j, k]}
@@ -101,6 +107,11 @@ def check_schedule(cos, dts, restarts=()):
                 return i
             y = ys[step % len(ys)]
             step += 1
+            num = cos[i].get('num', 0)
+            if y is not None and num == 2:
+                y = Fraction(y)             # a number all the same: waits are compared and added, never type-tested
+            elif y is not None and num == 3:
+                y = Seconds(y)
             yield y
 
     for i in range(n):
@@ -157,7 +168,7 @@ def check_schedule(cos, dts, restarts=()):
         del started_inside[:]
         waiting_before = [i for i in range(n) if state[i] == WAIT]
         try:
-            proc.process(dt)
+            proc.process(Fraction(dt) if frac_dt else dt)
         except Exception as exc:
             raise PropertyViolation('process_raised', {'frame': f, 'exception': repr(exc)})
         # model: who must run in this frame
@@ -210,7 +221,13 @@ def check_schedule(cos, dts, restarts=()):
 
 
 def run_case(case):
-    facts = check_schedule(case['cos'], case['dts'], [tuple(r) for r in case.get('restarts', ())])
+    # every dt of the case is a Fraction when the first coroutine writes Fractions and the history is odd-sized
+    frac_dt = case['cos'][0].get('num', 0) == 2 and len(case['dts']) % 2 == 1
+    facts = check_schedule(case['cos'], case['dts'], [tuple(r) for r in case.get('restarts', ())], frac_dt)
+    if any(c.get('num', 0) >= 2 for c in case['cos']):
+        facts['non_builtin_number_waits'] = 1
+    if frac_dt:
+        facts['fraction_dt'] = 1
     nontrivial = (len(case['cos']) >= 2 and facts['overlapping_waits_different_deadlines']
                   and facts['waits_again_after_queue_emptied'])
     return {'nontrivial': bool(nontrivial), 'classes': sorted(k for k, v in facts.items() if v),
